@@ -25,13 +25,18 @@ import (
 
 type flockEv struct {
 	ofd, ino   int
-	op         string // LOCK_EX LOCK_SH LOCK_UN close
+	flags      int    // openat: numeric flags
+	path       string // openat
+	data       []byte // read / write / pwrite64 payload
+	off, n     int    // pwrite64 offset, ftruncate size / byte count
+	op         string // LOCK_EX LOCK_SH LOCK_UN close openat read write pwrite64 ftruncate
 	start, end float64
 	ok         bool
 	tid        string
 }
 
 type kmStats struct {
+	replay                                         replayStats
 	grants, releases, waits, waitsExplained, lines int
 	longestWait                                    float64
 }
@@ -107,7 +112,16 @@ func parseFlockTrace(raw, dir string) ([]flockEv, int) {
 		}
 		return t
 	}
-	// pass 2, in order of completion (the order strace wrote them)
+	// pass 2: descriptor numbers are reused, so the order matters.  A close frees its number
+	// at some point after its entry, and an open that returns the number has completed after
+	// that: take closes at their entry and everything else at its exit.
+	key := func(r rec) float64 {
+		if r.name == "close" {
+			return r.start
+		}
+		return r.end
+	}
+	sort.SliceStable(recs, func(i, j int) bool { return key(recs[i]) < key(recs[j]) })
 	type fdKey struct {
 		proc, fd string
 	}
@@ -121,10 +135,10 @@ func parseFlockTrace(raw, dir string) ([]flockEv, int) {
 		parts := strings.Split(r.args, ", ")
 		switch r.name {
 		case "openat":
-			if len(parts) < 3 || strings.HasPrefix(r.ret, "-") || r.ret == "?" {
+			if len(parts) < 3 || r.ret == "?" {
 				continue
 			}
-			path := strings.Trim(parts[1], `"`)
+			path := unescape(strings.Trim(parts[1], `"`))
 			if filepath.Dir(path) != dir || strings.HasSuffix(path, ".shm") {
 				continue
 			}
@@ -132,7 +146,13 @@ func parseFlockTrace(raw, dir string) ([]flockEv, int) {
 				inos[path] = len(inos)
 			}
 			nofd++
-			fds[fdKey{p, r.ret}] = open{nofd, inos[path]}
+			fl, _ := openFlagsValue(parts[2])
+			failed := strings.HasPrefix(r.ret, "-")
+			if !failed {
+				fds[fdKey{p, r.ret}] = open{nofd, inos[path]}
+			}
+			evs = append(evs, flockEv{ofd: nofd, ino: inos[path], op: "openat", flags: fl &^ (0o2000000 | 0o100000),
+				path: path, start: r.start, end: r.end, ok: !failed, tid: r.tid})
 		case "flock":
 			o, ok := fds[fdKey{p, fdOf(parts[0])}]
 			if !ok || len(parts) < 2 {
@@ -140,6 +160,29 @@ func parseFlockTrace(raw, dir string) ([]flockEv, int) {
 			}
 			evs = append(evs, flockEv{ofd: o.ofd, ino: o.ino, op: parts[1], start: r.start, end: r.end,
 				ok: r.ret == "0", tid: r.tid})
+		case "read", "write", "pwrite64", "ftruncate":
+			o, ok := fds[fdKey{p, fdOf(parts[0])}]
+			if !ok || len(parts) < 2 {
+				continue
+			}
+			e := flockEv{ofd: o.ofd, ino: o.ino, op: r.name, start: r.start, end: r.end, ok: !strings.HasPrefix(r.ret, "-"), tid: r.tid}
+			e.n, _ = strconv.Atoi(r.ret)
+			switch r.name {
+			case "ftruncate":
+				e.n, _ = strconv.Atoi(parts[1])
+			case "pwrite64":
+				if len(parts) > 3 {
+					e.off, _ = strconv.Atoi(parts[3])
+				}
+				fallthrough
+			default:
+				d := strings.TrimSuffix(parts[1], "...")
+				e.data = []byte(unescape(strings.Trim(d, `"`)))
+				if r.name == "read" && e.n >= 0 && e.n <= len(e.data) {
+					e.data = e.data[:e.n]
+				}
+			}
+			evs = append(evs, e)
 		case "close":
 			k := fdKey{p, fdOf(parts[0])}
 			if o, ok := fds[k]; ok && r.ret == "0" {
@@ -149,6 +192,26 @@ func parseFlockTrace(raw, dir string) ([]flockEv, int) {
 		}
 	}
 	return evs, lines
+}
+
+// unescape decodes strace's \xNN string escapes (-xx).
+func unescape(s string) string {
+	if !strings.Contains(s, `\x`) {
+		return s
+	}
+	var b strings.Builder
+	for i := 0; i < len(s); {
+		if i+3 < len(s) && s[i] == '\\' && s[i+1] == 'x' {
+			if v, err := strconv.ParseUint(s[i+2:i+4], 16, 8); err == nil {
+				b.WriteByte(byte(v))
+				i += 4
+				continue
+			}
+		}
+		b.WriteByte(s[i])
+		i++
+	}
+	return b.String()
 }
 
 // checkFlockHistory replays the events through the model and looks for unexplained waits.
@@ -253,6 +316,7 @@ func checkFlockHistory(m *common.Model, evs []flockEv) (st kmStats, findings []h
 // runFlockReplay: one traced stress round.
 func runFlockReplay(self, work string, m *common.Model, procs, gor, iters, npaths int, seed uint64) (kmStats, []histFinding, []string, error) {
 	var st kmStats
+	initial := map[string]string{}
 	dir, err := os.MkdirTemp(work, "kmodel")
 	if err != nil {
 		return st, nil, nil, err
@@ -262,12 +326,14 @@ func runFlockReplay(self, work string, m *common.Model, procs, gor, iters, npath
 		return st, nil, nil, err
 	}
 	for p := 0; p < npaths; p++ {
-		os.WriteFile(filepath.Join(dir, fmt.Sprintf("f%d", p)), payload(uint64(p)+1, 10), 0o666)
+		fp := filepath.Join(dir, fmt.Sprintf("f%d", p))
+		os.WriteFile(fp, payload(uint64(p)+1, 10), 0o666)
+		initial[fp] = common.Hex(payload(uint64(p)+1, 10))
 	}
 	out := filepath.Join(work, "kmodel.strace")
 	defer os.Remove(out)
-	cmd := exec.Command("strace", "-f", "-ttt", "-T", "-s", "0", "-o", out,
-		"-e", "trace=openat,flock,close,clone,clone3,fork,vfork,execve",
+	cmd := exec.Command("strace", "-f", "-ttt", "-T", "-xx", "-s", "65536", "-o", out,
+		"-e", "trace=openat,flock,close,read,write,pwrite64,ftruncate,clone,clone3,fork,vfork,execve",
 		self, "helper", "stresslaunch", dir, fmt.Sprint(procs), fmt.Sprint(gor), fmt.Sprint(iters), fmt.Sprint(seed), fmt.Sprint(npaths))
 	stdout, err := cmd.Output()
 	if err != nil {
@@ -288,5 +354,10 @@ func runFlockReplay(self, work string, m *common.Model, procs, gor, iters, npath
 	evs, lines := parseFlockTrace(string(raw), dir)
 	st, findings := checkFlockHistory(m, evs)
 	st.lines = lines
+	if m != nil {
+		rs, f2 := replayThroughModel(m, evs, initial, dir)
+		st.replay = rs
+		findings = append(findings, f2...)
+	}
 	return st, findings, viols, nil
 }
